@@ -73,6 +73,19 @@ CLAIMED["C19"] = dict(
          "for writable globals. Bit-identity across compilers/FPU modes is outside the program text.",
     ref="3 C19")
 
+CLAIMED["C18"] = dict(
+    category="proof",
+    technique="abstract interpretation of the uncertainty functions in a lower-bound domain over symbolically "
+              "folded terms + normal-form comparison of the defining sums",
+    text="Each of the 11 uncertainty functions is folded into a closed term (callees inlined, a_mu contributions "
+         "as symbols of arbitrary sign) and evaluated in the domain [lb, +inf): the estimates are >= 0, the "
+         "two-loop estimates >= their documented floor, for every model and every value of the a_mu inputs, "
+         "including cancellation points a test cannot aim at. The defining sums (0L, 1L) and the delegation of "
+         "the overloads that compute a_mu themselves are decided by term comparison.",
+    note=TRUST + "Finiteness of the estimates is a value property and is not decided. |x| >= 0 is the only "
+         "arithmetic fact used besides monotonicity of + and * on non-negative terms.",
+    ref="3 C18")
+
 NOT_APPLICABLE = {
     "C03": "numerical agreement of one-loop results with an independent higher-precision evaluation over all "
            "parameter points: depends on eigen-decomposition values; no code-shape clause of its own "
